@@ -10,18 +10,18 @@ def check(pid, text, note, technique, ref):
     CHECKS[pid] = dict(text=text, note=note, technique=technique, ref=ref)
 
 check("C01",
-      "Generated task programs (shape-first: chain/tree/comb/diamond/re-entry comb/staggered/free-form; nested tuple/list/dict yields, DAG sharing, the same object yielded again, synchronous re-entry incl. direct item.value() calls, try/except, contexts, failing leaves) are run on both builds under generated get_priority tables and every calling convention; root outcome and every task's transcript must equal an independent sequential reference interpreter, and be identical across conventions and under the reversed priority table. An enumerated boundary-size campaign (tuples / lists / dicts / sibling fans of 127..70 000 members, a synchronous call made with 65 537 entries on the scheduler stack) targets narrowed C integer types of the compiled build. Search, not proof: evidence reports cases, distinct non-trivial cases and class distribution.",
+      "Generated task programs (shape-first: chain/tree/comb/diamond/re-entry comb/staggered/free-form; nested tuple/list/dict yields, DAG sharing, the same object yielded again, synchronous re-entry incl. direct item.value() calls, try/except, contexts, failing leaves, one lazy Future object in several places) are run on both builds under generated get_priority tables and every calling convention; root outcome and every task's transcript must equal an independent sequential reference interpreter, and be identical across conventions and under the reversed priority table. Library tools are leaves of the programs too (deduplicated functions incl. self re-entry and two same-named functions, alru_cache'd functions, async generators consumed by list_of_generator or iterated by hand a few items per statement, amap/afilter/asorted/amin/amax with blocking keys, aretry, call_with_context with a recording / failing / suppressing context); the reference knows each tool's documented result. An enumerated boundary-size campaign (tuples / lists / dicts / sibling fans of 127..70 000 members, a synchronous call made with 65 537 entries on the scheduler stack) targets narrowed C integer types of the compiled build. Search, not proof: evidence reports cases, distinct non-trivial cases and class distribution.",
       "Trusted: the 170-line reference interpreter (harness/e1/ref.py), the harness batch kinds (written as the README prescribes), Hypothesis. Flush orders are steered via get_priority, a superset of what set-iteration tie-breaks can produce between batches of different kinds.",
       "property-based differential testing against a sequential reference interpreter + metamorphic relations (calling convention, reversed priorities), Hypothesis-generated program ASTs, structural shrinking",
       "DESIGN.md 5/C01")
 
 check("C02",
-      "Fault-heavy generated programs (a task raising at any step, item errors, items left unset, flush bodies raising after a prefix, ErrorFuture, failing lazy Future, non-future objects; try/except on or off at every level; synchronous re-entry; DAG sharing) on both builds. Oracle: the sequential reference's 'first failure in structure order' for outcome and every transcript; in-body monitors assert exception *identity* (the object caught is error() of the first failing future), that every future yielded alongside is computed at delivery, and that value() raises the task's own error object. Hangs are caught by the heartbeat watchdog and confirmed alone before being reported.",
+      "Fault-heavy generated programs (a task raising at any step, item errors, items left unset, flush bodies raising after a prefix, ErrorFuture, failing lazy Future, non-future objects; try/except on or off at every level; synchronous re-entry; DAG sharing; library tools as leaves, e.g. a function failing inside call_with_context, whose context must be told about the failure and may suppress it) on both builds. Oracle: the sequential reference's 'first failure in structure order' for outcome and every transcript; in-body monitors assert exception *identity* (the object caught is error() of the first failing future), that every future yielded alongside is computed at delivery, and that value() raises the task's own error object. Hangs are caught by the heartbeat watchdog and confirmed alone before being reported.",
       "Trusted: reference interpreter, harness batch kinds; which items a raising flush leaves unset is read from the flush body's own log. NonAsyncContext / failing contexts are excluded from this property's programs.",
       "property-based testing with fault injection at generated positions; differential against a sequential reference + identity/ordering monitors inside the generated task bodies",
       "DESIGN.md 5/C02")
 check("C04",
-      "Yield-only generated programs (unequal depths, DAG sharing, errors, try/except, contexts, 1-3 batch kinds, generated priority tables). At every on_before_batch_flush the harness asserts from its own records that every awaited, uncompleted task has started and still waits on an uncomputed future (induction over the acyclic program gives 'is waiting on an unflushed item'); single-kind programs are additionally compared with an independent round simulator: number of flushes = critical path, and the argument multiset of each flush = the simulator's round (also on fans of up to 65 537 siblings).",
+      "Yield-only generated programs (unequal depths, DAG sharing, errors, failing flush bodies, try/except, contexts, 1-3 batch kinds, generated priority tables; deduplicated / cached / generator / amap / aretry leaves in the invariant campaign). At every on_before_batch_flush the harness asserts from its own records that every awaited, uncompleted task has started and still waits on an uncomputed future (induction over the acyclic program gives 'is waiting on an unflushed item'); single-kind programs are additionally compared with an independent round simulator: number of flushes = critical path, and the argument multiset of each flush = the simulator's round (also on fans of up to 65 537 siblings). A further campaign starts each program while the scheduler still holds a request registered by an earlier computation (its task failed while parked on it): no flush may precede the start of the awaited task.",
       "Trusted: round simulator (harness/e1/sim.py), harness bookkeeping of what each task yielded. With several kinds only the invariant is asserted (the flush count is schedule dependent).",
       "property-based testing: invariant checked at every flush event + differential against a round-based reference scheduler",
       "DESIGN.md 5/C04")
@@ -32,12 +32,12 @@ check("C05",
       "DESIGN.md 5/C05")
 
 check("C03",
-      "Generated programs (yield-only, and a second campaign with synchronous re-entry) with tasks awaited by several parents, already-computed futures and the same object yielded again, orphans, empty structures and failures: monitors inside every generated task body assert 'never resumed with an uncomputed future', 'resumes = yields', 'no step after completion', 'orphans never start', 'fresh list/tuple siblings start in the order written'; after value() returns every task the reference says is transitively awaited must be computed; the same oracles run on enumerated boundary sizes (fans of up to 65 537 sibling tasks / items). Deep chains (up to 1 500 awaiting tasks in the quick tier, 100 000 in the thorough tier, five yield patterns) must return the closed-form value with exactly one resume per yield. Termination is a bounded check (heartbeat watchdog, case re-run alone before a hang is reported).",
+      "Generated programs (yield-only, and a second campaign with synchronous re-entry) with tasks awaited by several parents, already-computed futures and the same object yielded again, orphans, empty structures, the same unstarted task written twice in one yield, library tools as leaves, and failures: monitors inside every generated task body assert 'never resumed with an uncomputed future', 'resumes = yields', 'no step after completion', 'orphans never start', 'fresh list/tuple siblings start in the order written'; after value() returns every task the reference says is transitively awaited must be computed; the same oracles run on enumerated boundary sizes (fans of up to 65 537 sibling tasks / items). Deep chains (up to 1 500 awaiting tasks in the quick tier, 100 000 in the thorough tier, five yield patterns plus eleven patterns in which every level awaits the next through a library tool: amap, afilter, amin, amax, asorted, an async generator's first or second await, deduplicate, alru_cache, aretry, call_with_context) must return the closed-form value with exactly one resume per yield. Termination is a bounded check (heartbeat watchdog, case re-run alone before a hang is reported).",
       "Trusted: the monitors in harness/e1/engine.py; liveness is bounded by VERIF_STALL_S (120 s against milliseconds per case).",
       "property-based testing with in-body runtime monitors over generated DAG programs + enumerated deep-chain scalability cases + watchdog",
       "DESIGN.md 5/C03")
 check("C06",
-      "Generated programs with recording AsyncContext blocks (real with statements: spanning several yields, nested, in many concurrently pending tasks, left normally / by delivered error / by early result, with synchronous re-entry and DAG sharing). Oracle per context: resume/pause strictly alternate from entry to exit; at every statement of every task and at every flush the context is active iff its owner is ancestor-or-self (uniquely) of the running task / of the task whose synchronous call drives the flush, and paused if its owner does not reach the running task at all -- computed from the program's await/sync-call graph. NonAsyncContext: yield-only tree programs compared with a NonAsyncContext-aware round simulator (a task fails with AssertionError iff it has to be suspended inside the block). One task holding 5..300 contexts at once (boundary sizes) is checked with the same rule.",
+      "Generated programs with recording AsyncContext blocks (real with statements: spanning several yields, nested, in many concurrently pending tasks, left normally / by delivered error / by an exception the same task handles / by early result, with synchronous re-entry and DAG sharing; blocks inside @async_generator() bodies -- around an awaited future, around one Value, around several Values -- consumed by list_of_generator or iterated by hand under the consumer's own blocks; call_with_context). Oracle per context: the event sequence is r(pr)*Xp -- resume at entry, strict alternation, exactly one pause after the block exit X and nothing afterwards; at every statement of every task and at every flush the context is active iff its owner is ancestor-or-self (uniquely) of the running task / of the task whose synchronous call drives the flush, and paused if its owner does not reach the running task at all -- computed from the program's await/sync-call graph. NonAsyncContext: yield-only tree programs compared with a NonAsyncContext-aware round simulator (a task fails with AssertionError iff it has to be suspended inside the block). One task holding 5..300 contexts at once (boundary sizes) is checked with the same rule.",
       "Trusted: round simulator, the harness's record of the await graph. Nothing is asserted about which of two awaiters' contexts is active for a shared task; contexts whose own pause/resume raise are out of scope here (C08).",
       "property-based testing: runtime monitors + event-log invariants over generated programs; differential against a round simulator for NonAsyncContext",
       "DESIGN.md 5/C06")
@@ -48,12 +48,12 @@ check("C07",
       "DESIGN.md 5/C07")
 
 check("C08",
-      "Generated histories of 1-4 programs run one after another on the same thread without resetting the scheduler; every program has arbitrary failure points (task steps, items, raising and hard-failing flushes, failing lazy futures, contexts whose pause/resume raise, NonAsyncContext, MAX_TASK_STACK_SIZE lowered below the program's need) and nested synchronous re-entry. Inside bodies get_active_task() must be the running task at every statement and after each nested synchronous call; after each computation get_active_task() is None, the scheduler retains no task, str(scheduler) works, and a fixed canary computation (own batch kind, context, nested structure) produces exactly the trace it produces on a fresh scheduler, without flushing anything foreign (after a runaway recursion in a yield-only program the harness leaves the dead computation's batches alone, because asynq resets the scheduler itself there).",
+      "Generated histories of 1-4 programs run one after another on the same thread without resetting the scheduler; every program has arbitrary failure points (task steps, items, raising and hard-failing flushes, failing lazy futures, contexts whose pause/resume raise, NonAsyncContext, MAX_TASK_STACK_SIZE lowered below the program's need, library tools incl. a deduplicated body that re-enters itself from a failure handler) and nested synchronous re-entry. Inside bodies get_active_task() must be the running task at every statement and after each nested synchronous call; after each computation get_active_task() is None, the scheduler retains no task, str(scheduler) works, and a fixed canary computation (own batch kind, context, nested structure) produces exactly the trace it produces on a fresh scheduler, without flushing anything foreign (after a runaway recursion in a yield-only program the harness leaves the dead computation's batches alone, because asynq resets the scheduler itself there).",
       "Trusted: the canary's fresh-scheduler trace (recorded in the same process); leftover *batches* are cancelled by the harness between computations (the statement speaks of tasks). The in-body monitor is not consulted under a lowered stack limit.",
       "model-based history testing: Hypothesis-generated sequences of fault-injected programs against a 'fresh scheduler' canary oracle + state invariants after every step",
       "DESIGN.md 5/C08")
 check("C20",
-      "Tie-free generated programs (synchronous re-entry incl. the re-entry comb shape and direct item.value() calls, failures, several batch kinds, DebugBatchItem, contexts) are run under default options and then under every single boolean debug option, all-on, and generated subsets (thorough: all pairs with the three options that touch scheduling paths), with SCHEDULER_STATE_DUMP_INTERVAL=0 so dump code executes and a harness clock stepping 1 us .. 1e11 us per reading, on both builds. Metamorphic oracle: outcome, every transcript, flush compositions and the context event log must be identical to the default-options run.",
+      "Tie-free generated programs (synchronous re-entry incl. the re-entry comb shape and direct item.value() calls, failures, several batch kinds, DebugBatchItem, contexts, library tools as leaves; half of the cases under a lowered MAX_TASK_STACK_SIZE) are run under default options and then under every single boolean debug option, all-on, and generated subsets (thorough: all pairs with the three options that touch scheduling paths), with SCHEDULER_STATE_DUMP_INTERVAL=0 so dump code executes and a harness clock stepping 1 us .. 1e11 us per reading, on both builds. Every run is followed, on the same scheduler and under the same options, by a fixed second computation and by a call whose argument cannot be rendered (repr raises RecursionError). Metamorphic oracle: outcome, every transcript, flush compositions and the context event log of all three must be identical to the default-options run.",
       "Trusted: tie-freeness of generated programs (distinct constant priority per kind), the harness clock replacing asynq.scheduler.utime. Diagnostic text is only required to be produced without raising.",
       "metamorphic property-based testing: same generated program under enumerated option configurations and generated clock magnitudes must yield the identical observable trace",
       "DESIGN.md 5/C20")
@@ -64,7 +64,7 @@ check("C10",
       "model-based testing: generated operation histories against an explicit reference state machine (stateful PBT, shrinkable op lists)",
       "DESIGN.md 5/C10")
 check("C11",
-      "Generated operation sequences (add-item, flush, cancel with/without error, item.value(), batch.value()/error(), state queries) on a README-style BatchBase subclass with a generated flush behaviour (per item: set value / set error / leave unset; then return / raise Exception / raise BaseException / cancel itself; optionally create a new item while flushing) and on the built-in DebugBatch, against a reference lifecycle model: flush never raises for a failing body, second flush raises BatchingError, cancel never raises, no item joins a finished batch, every item complete (value > flush/cancel error > AssertionError) when the batch's completion is announced exactly once, body runs at most once, the batch stops being the active batch before its body runs and items created during the flush join a fresh pending batch.",
+      "Generated operation sequences (add-item, flush, cancel with/without error, item.value(), batch.value()/error(), state queries) on a README-style BatchBase subclass with a generated flush behaviour (per item: set value / set error / leave unset; then return / raise Exception / raise BaseException / cancel itself; optionally create a new item while flushing; error instances may be falsy) and on the built-in DebugBatch, against a reference lifecycle model: flush never raises for a failing body, second flush raises BatchingError, cancel never raises, no item joins a finished batch, every item complete (value > flush/cancel error > AssertionError) when the batch's completion is announced exactly once, body runs at most once, the batch stops being the active batch before its body runs and items created during the flush join a fresh pending batch.",
       "Trusted: the reference lifecycle model in harness/props/c11.py.",
       "model-based testing: generated operation histories with generated flush behaviours against a reference lifecycle model",
       "DESIGN.md 5/C11")
@@ -80,12 +80,12 @@ check("C13",
       "model-based testing: generated call histories against reference caches (OrderedDict LRU / per-instance dict / ttl cell)",
       "DESIGN.md 5/C13")
 check("C14",
-      "Generated inputs (ints, None, unorderable objects with equal keys; list / tuple / one-shot iterator; immediate or batch-blocking key/predicate; reverse; varargs and single-iterable forms; bad inputs) for amap, afilter, afilterfalse, asorted, amax, amin, asift compared by object identity with map/filter/filterfalse/sorted/max/min/a two-list partition, same exception type on bad input, exactly one flush per helper call with a blocking key; aretry over the enumerated grid k in 0..6 x max_tries in 0..6 x position of an unlisted exception x exception spec x blocking body: body-run count min(k+1, max_tries), re-raise of anything else immediately, arguments passed through.",
+      "Generated inputs (ints, None, unorderable objects with equal keys, objects that compare equal yet have different keys; list / tuple / one-shot iterator; immediate or batch-blocking key/predicate; reverse; varargs and single-iterable forms; bad inputs) for amap, afilter, afilterfalse, asorted, amax, amin, asift compared by object identity with map/filter/filterfalse/sorted/max/min/a two-list partition, same exception type on bad input, exactly one flush per helper call with a blocking key; aretry over the enumerated grid k in 0..6 x max_tries in 0..6 x position of an unlisted exception x exception spec x blocking body x one invocation or two in flight together: body-run count min(k+1, max_tries), re-raise of anything else immediately, arguments passed through.",
       "Trusted: Python's built-ins as the reference.",
       "differential property-based testing against the built-ins + exhaustive enumeration of the aretry grid",
       "DESIGN.md 5/C14")
 check("C17",
-      "Generated async-generator bodies (operation lists over Value / await constant / await batch item / await child task; trailing awaits, no Values, empty; optionally consumed through an outer async generator) with consumers list_of_generator, repeated take_first(n) (0 <= n <= len+2) on one generator, manual next() misuse and advancing after exhaustion, against a list model with a position pointer: exactly the Values in order, take_first(gen, 0) == [] without advancing, bound on how far the body has advanced, END_OF_GENERATOR never in a result, RuntimeError on premature advance, StopIteration repeatedly after exhaustion.",
+      "Generated async-generator bodies (operation lists over Value / await constant / await batch item / await child task / await a dict, tuple or list of futures / bare yield; trailing awaits, no Values, empty; optionally consumed through an outer async generator) with consumers list_of_generator, repeated take_first(n) (0 <= n <= len+2) on one generator, manual next() misuse and advancing after exhaustion, against a list model with a position pointer: exactly the Values in order, take_first(gen, 0) == [] without advancing, bound on how far the body has advanced, END_OF_GENERATOR never in a result, RuntimeError on premature advance, StopIteration repeatedly after exhaustion.",
       "Trusted: the list/pointer model. Raising bodies are not generated.",
       "model-based property testing of generated generator bodies and consumer call sequences",
       "DESIGN.md 5/C17")
@@ -96,7 +96,7 @@ check("C09",
       "exhaustive enumeration of a finite calling-convention matrix + property-based testing of argument spellings, differential against direct evaluation of the body",
       "DESIGN.md 5/C09")
 check("C15",
-      "Batch-free generated programs (trees of tasks, constant futures, None, functions with an explicit asyncio_fn, nested/empty tuple-list-dict structures, raises and try/except at any level), entered through a function, a bound method or an async_proxy: the same generated body is run by fn() under the asynq scheduler and by a driver coroutine awaiting fn.asyncio() under asyncio.run; both outcomes and every task's transcript must equal the sequential reference (a plain synchronous call of an @asynq() function inside a body must succeed under asynq and raise RuntimeError under asyncio); a monitor asserts that every task yielded alongside has finished when a failure is delivered at a yield; is_asyncio_mode() must be off before and after (also on failure), on inside bodies under asyncio and off under asynq; the same driver coroutine then awaits a plain (non-generator) function that returns or raises and probes the flag and a synchronous call again.",
+      "Batch-free generated programs (trees of tasks, constant futures, futures whose value is an exception instance, None, functions with an explicit asyncio_fn, an async_proxy without one used with several arguments, async_call on @asynq / plain / pure functions, nested/empty tuple-list-dict structures, raises and try/except at any level), entered through a function, a bound method or an async_proxy: the same generated body is run by fn() under the asynq scheduler and by a driver coroutine awaiting fn.asyncio() under asyncio.run; both outcomes and every task's transcript must equal the sequential reference (a plain synchronous call of an @asynq() function inside a body must succeed under asynq and raise RuntimeError under asyncio); a monitor asserts that every task yielded alongside has finished when a failure is delivered at a yield; is_asyncio_mode() must be off before and after (also on failure), on inside bodies under asyncio and off under asynq; the same driver coroutine then awaits a plain (non-generator) function that returns or raises and probes the flag and a synchronous call again.",
       "Trusted: reference interpreter; the driver coroutine observing the contextvar in the same context. ErrorFuture / lazy Future / batch items / result() are outside the property's stated domain and not generated.",
       "differential property-based testing: one generated body under two engines (asynq scheduler vs asyncio event loop) and a sequential reference",
       "DESIGN.md 5/C15")
